@@ -817,15 +817,19 @@ func (tm *Manager) Run(ec chan error) {
 
 	var wg sync.WaitGroup
 	restart := tm.restart
+	verifTrace("run-begin", nil)
 	for i := range tm.tasks {
 		i := i
 		wg.Add(1)
 		go func() {
+			verifTrace("task-start", tm.tasks[i])
 			tm.runTask(tm.tasks[i], restart)
+			verifTrace("task-stop", tm.tasks[i])
 			wg.Done()
 		}()
 	}
 	wg.Wait()
+	verifTrace("run-end", nil)
 }
 
 func loadTasks(ctx context.Context, pgp *pgxpool.Pool, c config.Root) ([]*Task, error) {
